@@ -2,7 +2,7 @@ SPEC = {
     "id": "C26",
     "level": "proof",
     "lean_modules": ["PallasVerif.Props.C26"],
-    "required_theorems": ["buffer_refines_spec", "rollback_found", "rollback_missing", "pop_spec"],
+    "required_theorems": ["buffer_refines_spec", "rollback_found", "rollback_missing", "pop_spec", "popped_monotone", "chain_conserved", "chain_after_history", "rollBack_prefix", "rollBack_idem", "latest_after_rollback"],
     "streams": [{"name": "rollback", "quick": 400, "thorough": 20000}],
     "rule": "op sequences (0..200 ops: fwd/back/pop/position/size/latest/oldest) over a 2..7-point alphabet incl. origin and two "
             "points sharing a slot; distinct = sha1 of op text; non-trivial = the case contains both a roll-back that hit a buffered "
